@@ -74,6 +74,11 @@ func vhAssertionEl(p string, sig int) *vhA {
 		nid.CreateText(p1)
 		nid.CreateComment(vString(p + ".NameID.comment"))
 		nid.CreateText(p2)
+	} else if vhSplitText && vFlag(p+".NameID.cdata") {
+		// the IdP serialised the value as a CDATA section (same signed value: canonicalisation turns it into text)
+		// (an empty CDATA section is left out: xml-roundtrip-validator v0.1.0 rejects "<![CDATA[]]>", a dependency quirk)
+		vAssume(a.NameID != "")
+		subj.CreateElement("saml:NameID").CreateCData(a.NameID)
 	} else {
 		vhText2(subj, "saml:NameID", a.NameID)
 	}
@@ -105,9 +110,20 @@ func vhEncryptedEl(p string, inner *etree.Element) *etree.Element {
 	return vhEncryptedElZ(p, inner, false)
 }
 
+// vhEncLayouts: EncryptedAssertion elements vary their key conveyance (EncryptedKey inside EncryptedData/KeyInfo or
+// detached next to EncryptedData; DigestMethod absent or SHA-256) — set by the harness that wants it.
+var vhEncLayouts bool
+
 func vhEncryptedElZ(p string, inner *etree.Element, compressed bool) *etree.Element {
 	symKey := vBytes(p + ".symkey")
 	vAssume(len(symKey) == 16)
+	detached, digest := false, ""
+	if vhEncLayouts {
+		detached = vFlag(p + ".key-detached")
+		if vFlag(p + ".digest-sha256") {
+			digest = types.MethodSHA256
+		}
+	}
 	ea := etree.NewElement("saml:EncryptedAssertion")
 	ea.CreateAttr("xmlns:saml", "urn:oasis:names:tc:SAML:2.0:assertion")
 	ea.CreateAttr("vx-name", p)
@@ -117,16 +133,28 @@ func vhEncryptedElZ(p string, inner *etree.Element, compressed bool) *etree.Elem
 	em.CreateAttr("Algorithm", types.MethodAES128GCM)
 	ki := ed.CreateElement("ds:KeyInfo")
 	ki.CreateAttr("xmlns:ds", "http://www.w3.org/2000/09/xmldsig#")
-	ek := ki.CreateElement("xenc:EncryptedKey")
+	holder := ki
+	if detached {
+		holder = ea
+	}
+	cd := ed.CreateElement("xenc:CipherData")
+	vhText2(cd, "xenc:CipherValue", vEncryptTree(p+".cv", inner, symKey, compressed))
+	ek := holder.CreateElement("xenc:EncryptedKey")
+	if detached {
+		ek.CreateAttr("xmlns:xenc", "http://www.w3.org/2001/04/xmlenc#")
+	}
 	ekm := ek.CreateElement("xenc:EncryptionMethod")
 	ekm.CreateAttr("Algorithm", types.MethodRSAOAEP)
+	if digest != "" {
+		dm := ekm.CreateElement("ds:DigestMethod")
+		dm.CreateAttr("xmlns:ds", "http://www.w3.org/2000/09/xmldsig#")
+		dm.CreateAttr("Algorithm", digest)
+	}
 	ekcd := ek.CreateElement("xenc:CipherData")
-	wrapped := vWrapKey(p+".ek", vRSAKey("sp"), types.MethodRSAOAEP, "", symKey)
+	wrapped := vWrapKey(p+".ek", vRSAKey("sp"), types.MethodRSAOAEP, digest, symKey)
 	vAssume(vB64OK(wrapped))
 	vAssume(wrapped != "")
 	vhText2(ekcd, "xenc:CipherValue", wrapped)
-	cd := ed.CreateElement("xenc:CipherData")
-	vhText2(cd, "xenc:CipherValue", vEncryptTree(p+".cv", inner, symKey, compressed))
 	return ea
 }
 
@@ -735,11 +763,15 @@ func VH_C02_cert_window() {
 // Response, on each assertion, or both; plain or encrypted assertions; raw or compressed) is ACCEPTED
 // whenever it satisfies the profile checks; a rejection must be explained by a violated check (or by a
 // dependency outcome the models leave open: round-trip screen, certificate trust).
-func vhGenuine(maxKids int) {
-	vhSplitText = true
-	defer func() { vhSplitText = false }()
+func vhGenuine(maxKids int) { vhGenuineL(maxKids, false) }
+
+// vhGenuineL (layouts): two encrypted assertions whose key conveyance varies independently.
+func vhGenuineL(maxKids int, layouts bool) {
+	vhSplitText = !layouts
+	vhEncLayouts = layouts
+	defer func() { vhSplitText, vhEncLayouts = false, false }()
 	sp := vhOrchSP(false)
-	if vFlag("earlier-configuration") {
+	if !layouts && vFlag("earlier-configuration") {
 		// a long-lived SP whose trust store did not hold the IdP certificate yet when it first validated something
 		final := sp.IDPCertificateStore
 		sp.IDPCertificateStore = vEmptyStore()
@@ -748,17 +780,25 @@ func vhGenuine(maxKids int) {
 		vDebugErr("warm-up", werr)
 		sp.IDPCertificateStore = final
 	}
-	s := &vhScenario{rootSig: vChoice("root.sig", 2)} // none or valid
+	s := &vhScenario{rootSig: vhSigValid}
+	if !layouts {
+		s.rootSig = vChoice("root.sig", 2) // none or valid
+	}
 	s.root = vhResponseRoot(s, "samlp:Response")
 	n := 1 + vChoice("nChildren-1", maxKids)
+	if layouts {
+		n = 2
+	}
 	for i := 0; i < n; i++ {
 		p := "c" + string(rune('0'+i))
 		asig := vhSigValid
-		if s.rootSig == vhSigValid {
+		if layouts {
+			asig = vhSigNone // the signed Response vouches; the layouts of the encryption are the subject
+		} else if s.rootSig == vhSigValid {
 			asig = vChoice(p+".sig", 2) // under a signed Response the assertion itself may be unsigned
 		}
 		a := vhAssertionEl(p, asig)
-		if vFlag(p + ".encrypted") {
+		if layouts || vFlag(p+".encrypted") {
 			s.root.AddChild(vhEncryptedEl(p+".enc", a.el))
 		} else {
 			s.root.AddChild(a.el)
@@ -774,14 +814,17 @@ func vhGenuine(maxKids int) {
 			vAssume(ids[i] != ids[j])
 		}
 	}
-	mode := vChoice("wire.mode", 2)
+	mode := 0
+	if !layouts {
+		mode = vChoice("wire.mode", 2)
+	}
 	enc := vEncodeDoc("wire", s.root, mode)
 	resp, err := sp.ValidateEncodedResponse(enc)
 	vDebugErr("ValidateEncodedResponse", err)
 	vReach("accepted", err == nil)
 	vReach("rejected", err != nil)
 	if err == nil {
-		vAssert("C08.full-assertion-list-returned-in-order", len(resp.Assertions) == n && vhSameInOrder(resp.Assertions, s.order))
+		vAssert("C08,C11.full-assertion-list-returned-in-order", len(resp.Assertions) == n && vhSameInOrder(resp.Assertions, s.order))
 		return
 	}
 	if vCertRejections() > 0 || vScreenRejections() > 0 {
@@ -803,8 +846,11 @@ func vhGenuine(maxKids int) {
 			ok = vAnd(ok, vClockAt("sp", reads-1) < vParseNs(a.NotOnOrAfter))
 		}
 	}
-	vAssert("C08.genuine-response-satisfying-the-profile-is-accepted", vNot(ok))
+	vAssert("C08,C11.genuine-response-satisfying-the-profile-is-accepted", vNot(ok))
 }
+
+// VH_C11_encrypted_layouts: a genuine Response carrying two encrypted assertions, each with its own key conveyance.
+func VH_C11_encrypted_layouts() { vhGenuineL(1, true) }
 
 func VH_C08_genuine()      { vhGenuine(1) }
 func VH_C08_genuine_deep() { vhGenuine(2) }
